@@ -152,6 +152,18 @@ def gen_into_dest(rng, driver):
     return sc
 
 
+def gen_gitignore_targets(rng, driver):
+    """-L together with --gitignore: links that are NOT excluded themselves but point into an excluded directory are entries of
+    their own and are dereferenced; the excluded directory itself is not copied"""
+    sc = treerun.Scn(); sc.driver = driver; sc.workers = rng.choice([1, 4])
+    sc.d(b'/W').d(b'/W/S').f(b'/W/S/main').d(b'/W/S/build').d(b'/W/S/build/out').f(b'/W/S/build/out/fw').d(b'/W/S/build/out/assets').f(b'/W/S/build/out/assets/logo')
+    sc.l(b'/W/S/firmware.bin', b'build/out/fw').l(b'/W/S/assets', rng.choice([b'build/out/assets', b'/W/S/build/out/assets'])).l(b'/W/S/chain', b'firmware.bin')
+    sc.f(b'/W/S/.gitignore', text=rng.choice([b'build/\n', b'/build\n', b'build\n']))
+    sc.opts = ['r', 'L', 'gitignore']; sc.paths = [b'S', b'DEST']
+    sc.kinds = ['gitignore-link-targets']; sc.gitignore_case = True
+    return sc
+
+
 def run(ctx):
     ctx.proofs()
     core.build_repo(); core.build_sup()
@@ -159,7 +171,7 @@ def run(ctx):
     n = 120 if ctx.quick else 2000
     # corpus: the repaired defect F4 (a link to a directory became an empty directory)
     c0 = gen(rng, 'parfile'); c0.entries = [e for e in c0.entries if e['k'] != 'l']; c0.l(b'/W/S/ld', b'real'); c0.kinds = ['dir-rel']
-    scs = [c0] + [gen(rng, ['parfile', 'parblock'][i % 2]) for i in range(n)] + [gen_operands(rng, ['parfile', 'parblock'][i % 2]) for i in range(16 if ctx.quick else 200)] + [gen_into_dest(rng, ['parfile', 'parblock'][i % 2]) for i in range(6 if ctx.quick else 40)]
+    scs = [c0] + [gen(rng, ['parfile', 'parblock'][i % 2]) for i in range(n)] + [gen_operands(rng, ['parfile', 'parblock'][i % 2]) for i in range(16 if ctx.quick else 200)] + [gen_into_dest(rng, ['parfile', 'parblock'][i % 2]) for i in range(6 if ctx.quick else 40)] + [gen_gitignore_targets(rng, ['parfile', 'parblock'][i % 2]) for i in range(4 if ctx.quick else 24)]
     runs = []
     with core.Scratch('c13') as base:
         for i, sc in enumerate(scs):
@@ -225,7 +237,14 @@ def run(ctx):
                     for q, e in ents.items():
                         if q.startswith(r[1] + b'/') and b'/' not in q[len(r[1]) + 1:]:
                             expect(q, dstp + b'/' + q[len(r[1]) + 1:], depth + 1)
-            if not getattr(sc, 'operands', False) and not getattr(sc, 'glob_operands', False):
+            if getattr(sc, 'gitignore_case', False):
+                want = {b'/W/DEST/main': 'f', b'/W/DEST/firmware.bin': 'f', b'/W/DEST/chain': 'f', b'/W/DEST/assets': 'd', b'/W/DEST/assets/logo': 'f', b'/W/DEST/.gitignore': 'f'}
+                for pth, kd in want.items():
+                    if not (after.get(pth, '') == 'd' if kd == 'd' else after.get(pth, '').startswith('f:')):
+                        bad = bad or f'{pth!r} (a link that is not excluded itself) should be a {"directory" if kd == "d" else "regular file"} at the destination (found {after.get(pth)})'
+                if any(q.startswith(b'/W/DEST/build') for q in after):
+                    bad = bad or 'the excluded directory build/ was copied'
+            elif not getattr(sc, 'operands', False) and not getattr(sc, 'glob_operands', False):
                 expect(b'/W/S', getattr(sc, 'tb', b'/W/DEST'))
             if getattr(sc, 'glob_operands', False) and not bad:
                 for e in sc.entries:
